@@ -6,6 +6,7 @@ Inspired by TT-Toolbox from MATLAB.
 """
 import torchtt
 import torch as tn
+import numpy as np
 from torchtt._decomposition import rank_chop, QR, SVD
 import datetime
 import opt_einsum as oe
@@ -71,7 +72,7 @@ def dmrg_matvec_python(A, x, y0 = None, nswp = 20, eps = 1e-12, rmax = 32768, ki
     if d == 1:
         # a single core: there is no bond to sweep over, the product is exact
         return A @ x
-    if isinstance(rmax, int):
+    if isinstance(rmax, (int, np.integer)):
         rmax = [1] + [rmax]*(d-1) + [1]
 
     N = x.N
@@ -261,7 +262,7 @@ def dmrg_hadamard_python(z, x, y0 = None, nswp = 20, eps = 1e-12, rmax = 32768, 
     if d == 1:
         # a single core: there is no bond to sweep over, the product is exact
         return x * z
-    if isinstance(rmax,int):
+    if isinstance(rmax, (int, np.integer)):
         rmax = [1] + [rmax]*(d-1) + [1]
         
     N = x.N
